@@ -364,6 +364,37 @@ def resolution_case(N, K, C, M, flags, nyquist_cos=False, Nf=None):
                 params=dict(N=N, Nf=Nf, K=K, C=C, M=M, nyquist_cos=nyquist_cos, **fl))
 
 
+def two_grids_case(N1, N2, C, M, flags):
+    """history: the SAME layer object is evaluated on grid N1 and then on grid N2 (e.g. 2k then 2k+1 nodes, whose half
+    spectra have the same shape): the second result is what a fresh layer with the same weights returns on N2"""
+    fl = FLAGS[flags]
+    N1, N2 = tuple(N1), tuple(N2)
+    name = "two_grids/N%s_then_N%s/C%d/M%s/%s" % (_name_grid(N1), _name_grid(N2), C, _name_grid(M if isinstance(M, tuple) else (M,)), flags)
+
+    def body(env):
+        layer = make_layer(env, C, M, **fl)
+        x1 = env.tensor("x1", (1,) + N1 + (C,))
+        x2 = env.tensor("x2", (1,) + N2 + (C,))
+        layer(x1)
+        y2 = layer(x2)
+        fresh = make_layer(env, C, M, **fl)  # same parameter symbols
+        z2 = fresh(x2)
+        axes = [(1 + i, n) for i, n in enumerate(N2)]
+        pairs = _shift_pairs(layer, x2, y2, axes)
+        return dict(shape_ok=tuple(y2.shape) == tuple(x2.shape) and not y2.is_complex(), got=F.realize(y2) if tuple(y2.shape) == tuple(z2.shape) else None,
+                    want=F.realize(z2), pairs=pairs if tuple(y2.shape) == tuple(x2.shape) else [])
+
+    def goals(o, L, env):
+        yield "shape_preserved", bool(o["shape_ok"])
+        if o["got"] is not None:
+            yield "same_as_fresh_layer_on_second_grid", _all_eq(L, o["got"], o["want"])
+        for label, got, want in o["pairs"]:
+            yield "equivariant[%s]" % label, _all_eq(L, got, want)
+
+    return Case(name, body, goals, family="two_grids/%s" % flags, params=dict(N1=N1, N2=N2, C=C, M=M, **fl),
+                allowed_exc=())
+
+
 def _mode_set_1d(N):
     half = N // 2 + 1  # length of the half spectrum
     return sorted({1, 2, half - 1, half, half + 1, N + 1} - {0})
@@ -427,6 +458,10 @@ def cases(tier):
             cs.append(layer_case(N, 1, (2, 2, 2), "all"))
         cs.append(layer_case((2, 2, 2, 2), 1, (2, 2, 2, 2), "all"))
 
+    # ---- one layer object on two grids (2k and 2k+1 nodes share the shape of the half spectrum) ----------
+    for N1, N2 in (((2,), (3,)), ((3,), (2,)), ((4,), (2,))) + ((((2, 2), (2, 3)), ((3, 3), (3, 2)), ((6,), (3,)), ((8,), (4,))) if thorough else ()):
+        for flags in ("plain", "all"):
+            cs.append(two_grids_case(N1, N2, 1, (2,) * len(N1) if len(N1) > 1 else 2, flags))
     # ---- FNO ------------------------------------------------------------------------------
     if not thorough:
         for N, M in ((4, 2), (3, 2), (2, 3), (8, 3), (6, 5)):
